@@ -61,3 +61,27 @@ Definition parse_tokens_strict (ts : list string) : result sexp :=
   | Err k => Err k
   end.
 Definition parse_strict (m : mode) (s : text) : result sexp := parse_tokens_strict (tokenize m s).
+
+(* ---------- round 3: input mode and line structure ---------- *)
+(* a CR is followed by LF or stands at the very end of the text (no lone CR inside the text) *)
+Fixpoint cr_then_lf (s : text) : bool :=
+  match s with
+  | [] => true
+  | c :: r =>
+      (if Ascii.eqb c CR then match r with [] => true | c2 :: _ => Ascii.eqb c2 LF end else true) && cr_then_lf r
+  end.
+
+(* lines joined by line feeds (the inverse of str.split("\n")) *)
+Fixpoint join_lf (ls : list text) : text :=
+  match ls with
+  | [] => []
+  | [l] => l
+  | l :: r => l ++ LF :: join_lf r
+  end.
+
+(* a line without its comment: everything before the first ';' *)
+Fixpoint before_semi (l : text) : text :=
+  match l with
+  | [] => []
+  | c :: r => if Ascii.eqb c SEMI then [] else c :: before_semi r
+  end.
